@@ -52,6 +52,8 @@ def run(prog, tier):
     fam.run_family(R, prog, P, MEMBERS, 29, DELEGATES)
     check_pitfall(R, prog)
     check_ap(R, prog)
+    from ._shared import check_iterator_reuse
+    check_iterator_reuse(R, prog, P, ['cnfgen.families', 'cnfgen.formula', 'cnfgen.clihelpers'], 100)
     fam.cli_roles(R, prog, P, MEMBERS, 10)
     table = builder_table(prog)
     fam.borrow(R, P, "MECHANISM", prog, c04.check_thresholds, table, floor=8)
